@@ -335,6 +335,7 @@ func run(ctx *core.Ctx) error {
 			return err
 		}
 		ctx.Ev.AddReplayed(len(jobs))
+		ctx.Logf("family %s: %d executions on the real copier done", fam.name, len(jobs))
 		total += len(jobs)
 		if err := judge(ctx, recs, t); err != nil {
 			return err
